@@ -5,13 +5,23 @@ import lib, storelib as S, arithlib as A
 from lib import Result, RMODES, OMODES, model_call, run_sharded, e_fmt, Reader
 
 RULE = ('every pair of operand formats with n_word<=3 (quick) / <=5 (thorough), every code pair with divisor != 0, n_frac 0..n_word, rounding in {trunc, floor, around}, methods raw and repr; '
-        'random format pairs with result word <=53 bits, extreme and random codes. Checked on the implementation output with exact rationals: x/y exact when representable else one of the two '
+        'random format pairs with result word <=53 bits, extreme and random codes; operands up to 62 bits whose // and % result words are within 53 bits (x/y checked when its own word is). Checked on the implementation output with exact rationals: x/y exact when representable else one of the two '
         'neighbours (error < 1 LSB), no overflow with optimal sizing, x//y = floor(x/y), x%y = x - y*floor(x/y) with the divisor\'s sign, (x//y)*y + x%y == x, raw and repr agree on // and %; '
         'result formats against the extracted Spec. Non-trivial = the quotient is not an integer multiple of the result LSB; distinct by formats, codes, method, rounding.')
-ASSUMPTIONS = ['real operands, divisor != 0']
+ASSUMPTIONS = ['real operands, divisor != 0', 'the value (repr) method is exercised only with operands of at most 53 bits (it computes on the operands float values, which must be exact)']
 
 def fmts_small(nwmax):
     return [(s, nw, nf) for s in (True, False) for nw in range(1, nwmax + 1) for nf in range(0, nw + 1)]
+
+def wq_of(fxm, fym):
+    s = fxm[0] or fym[0]
+    return (1 if s else 0) + A.n_int_of(*fxm) + fym[2] + (1 if s else 0) + fxm[2] + A.n_int_of(*fym)
+def wfl_of(fxm, fym):
+    s = fxm[0] or fym[0]
+    return (1 if s else 0) + A.n_int_of(*fxm) + fym[2] + (1 if s else 0)
+def wmod_of(fxm, fym):
+    s = fxm[0] or fym[0]; nix, niy = A.n_int_of(*fxm), A.n_int_of(*fym)
+    return (1 if s else 0) + (max(nix, niy) if s else min(nix, niy)) + max(fxm[2], fym[2])
 
 def run_cases(cases, res, stratum):
     """case: (fxm, cx, fym, cy, method, rounding)"""
@@ -22,10 +32,11 @@ def run_cases(cases, res, stratum):
         try:
             x = A.mk(fx, np, *fxm, cx, rounding=rnd, op_method=method)
             y = A.mk(fx, np, *fym, cy, rounding=rnd, op_method=method)
-            q = x / y; fl = x // y; md = x % y
-            rec = fl * y + md
-            obs = {'q': (A.fmt_of(q), lib.codes_of(q)[0], lib.status3(q)), 'fl': (A.fmt_of(fl), lib.codes_of(fl)[0], lib.status3(fl)),
-                   'md': (A.fmt_of(md), lib.codes_of(md)[0], lib.status3(md)), 'rec': Fraction(lib.codes_of(rec)[0]) / Fraction(2) ** rec.n_frac}
+            fl = x // y; md = x % y
+            q = x / y if wq_of(fxm, fym) <= 53 else None      # (x/y only when ITS result word is within the domain)
+            rec = fl * y + md if (x.n_word + y.n_word <= 40) else None
+            obs = {'q': (A.fmt_of(q), lib.codes_of(q)[0], lib.status3(q)) if q is not None else None, 'fl': (A.fmt_of(fl), lib.codes_of(fl)[0], lib.status3(fl)),
+                   'md': (A.fmt_of(md), lib.codes_of(md)[0], lib.status3(md)), 'rec': (Fraction(lib.codes_of(rec)[0]) / Fraction(2) ** rec.n_frac) if rec is not None else None}
         except Exception as e:
             res.fail(case, 'C09: division family raised %s' % lib.exc_name(e), got=str(e)[:200]); continue
         pend.append((case, obs)); reqs.append([43] + e_fmt(*fxm) + [cx] + e_fmt(*fym) + [cy])
@@ -42,7 +53,9 @@ def run_cases(cases, res, stratum):
         qv = xv / yv
         res.count(stratum, key=repr(case), nontrivial=not exact)
         res.sample(case)
-        (fq, cq, sq), (ffl, cfl, sfl), (fm, cm, sm) = obs['q'], obs['fl'], obs['md']
+        (ffl, cfl, sfl), (fm, cm, sm) = obs['fl'], obs['md']
+        (fq, cq, sq) = obs['q'] if obs['q'] is not None else (gq, zf, (False, False, False))
+        if obs['rec'] is None: obs['rec'] = xv
         if fq != gq or ffl != gf or fm != gm:
             res.fail(case, 'C09: result format of / // % differs from the optimal-size rule', expected=(gq, gf, gm), got=(fq, ffl, fm)); continue
         # true division: exact if representable, else one of the two neighbours; never overflows
@@ -65,6 +78,7 @@ def run_cases(cases, res, stratum):
         if obs['rec'] != xv:
             res.fail(case, 'C09: (x//y)*y + x%y does not reproduce x', expected=str(xv), got=str(obs['rec'])); continue
         for d, key in ((0, 'q'), (1, 'fl'), (2, 'md')):
+            if key == 'q' and obs['q'] is None: continue
             mo = S.read_model_store(allouts[4 * pi + 1 + d])
             if mo['kind'] != 'ok' or mo['codes'] != [obs[key][1]] or mo['status'][:2] != obs[key][2][:2]:
                 res.fail(case, 'model Div.div_%s disagrees with the implementation although the property holds (%s)' % (case['method'], key), expected=str(mo)[:160], got=obs[key][1])
@@ -100,6 +114,22 @@ def shard(shard, nshards, rng, tier, extra):
         if cy == 0: continue
         cases.append((fxm, cx, fym, cy, rng.choice(['raw', 'repr']), rng.choice(['trunc', 'floor', 'around'])))
     run_cases(cases, res, 'B:random-to-53-bits')
+    # (C) operands up to 62 bits whose // and % results stay within 53 bits (x/y is skipped when its own word is wider)
+    cases = []
+    n = (1500 if tier == 'quick' else 40000) // nshards
+    tries = 0
+    while len(cases) < n and tries < 50 * n:
+        tries += 1
+        def g():
+            nw = rng.choice([8, 20, 30, 41, 48, 55, 60, rng.randint(1, 62)]); return (rng.random() < 0.5, nw, rng.randint(0, nw))
+        fxm, fym = g(), g()
+        if not (1 <= wfl_of(fxm, fym) <= 53 and 1 <= wmod_of(fxm, fym) <= 53): continue
+        cx = A.interesting_codes(rng, fxm[0], fxm[1], 1)[0]; cy = A.interesting_codes(rng, fym[0], fym[1], 1)[0]
+        if cy == 0: continue
+        # the value ('repr') method computes on the operands' float values: only for operands that are exact doubles
+        meth = rng.choice(['raw', 'repr']) if max(fxm[1], fym[1]) <= 53 else 'raw'
+        cases.append((fxm, cx, fym, cy, meth, rng.choice(['trunc', 'floor', 'around'])))
+    run_cases(cases, res, 'C:wide-operands-small-results')
     res.exhaustive = True
     return res
 
